@@ -152,9 +152,12 @@ def _gen(rng, kind, tier):
         cls, dim, modes = layout
         out = [_droplet_desc(rng, cls, dim, modes) for _ in range(n)]
         if hostile and n >= 2:
-            h = int(rng.integers(0, 4))
+            h = int(rng.integers(0, 5))
             i = int(rng.integers(1, n))
-            if h == 0:  # different class, same dimension
+            if h == 4 and cls.startswith("Perturbed") and n >= 3 and modes >= 2:
+                # first and last member alike, one member in between with a single amplitude (which numpy would broadcast)
+                out[int(rng.integers(1, n - 1))] = _droplet_desc(rng, cls, dim, 1)
+            elif h == 0 or h == 4:  # different class, same dimension
                 alt = {1: ["SphericalDroplet", "DiffuseDroplet"], 2: ["SphericalDroplet", "DiffuseDroplet", "PerturbedDroplet2D"],
                        3: ["SphericalDroplet", "DiffuseDroplet", "PerturbedDroplet3D", "PerturbedDroplet3DAxisSym"]}[dim]
                 c2 = str(rng.choice([a for a in alt if a != cls] or alt))
